@@ -372,6 +372,27 @@ func init() {
 		}
 		return []TextEdit{p.editReplace(a, ""), p.editReplace(b, "if dbName != o.primaryDBName {\ncontinue\n}\n"+p.text(b))}, nil
 	}})
+	registerControl(&ControlDef{Name: "generated slice equality forgets the length test", Rule: "GEN-TMPL", Expect: "slice columns, func equalXX|lengths compared first", Edit: func(p *Program) ([]TextEdit, error) {
+		pk := p.Pkgs["modelgen"]
+		for _, f := range pk.Syntax {
+			var hit *ast.BasicLit
+			ast.Inspect(f, func(n ast.Node) bool {
+				if bl, ok := n.(*ast.BasicLit); ok && strings.Contains(bl.Value, "for i, v := range a {") {
+					hit = bl
+				}
+				return true
+			})
+			if hit != nil {
+				old := "\"[]\" }}\n\tif len(a) != len(b) {\n\t\treturn false\n\t}\n\tfor i, v := range a {"
+				txt := p.text(hit)
+				if !strings.Contains(txt, old) {
+					return nil, fmt.Errorf("slice branch of the equality helper not found in the template")
+				}
+				return []TextEdit{p.editReplace(hit, strings.Replace(txt, old, "\"[]\" }}\n\tfor i, v := range a {", 1))}, nil
+			}
+		}
+		return nil, fmt.Errorf("template literal not found")
+	}})
 	ctl("lock taken before waiting for the handlers", "L-WAIT", "handleDisconnectNotification|WaitGroup.Wait", "client", "ovsdbClient", "handleDisconnectNotification", kStmt, "o.handlerShutdown.Wait()", 0, to("o.shutdownMutex.Lock()\no.handlerShutdown.Wait()\no.shutdownMutex.Unlock()"))
 	ctl("transact accepts an empty operation list", "G-ARGS", "at least one operation", "server", "OvsdbServer", "Transact", kExpr, "len(args) < 2", 0, to("len(args) < 1"))
 	ctl("delete-by-keys special case for every column", "P-NIL-TYPEOBJ", "addMutateOperation|deref", "updates", "ModelUpdates", "addMutateOperation", kExpr, `mutation.Mutator == "delete" && column.Type == ovsdb.TypeMap && reflect.TypeOf(mutation.Value) != reflect.TypeOf(ovsdb.OvsMap{})`, 0, to(`mutation.Mutator == "delete" && reflect.TypeOf(mutation.Value) != reflect.TypeOf(ovsdb.OvsMap{})`))
